@@ -259,6 +259,23 @@ func checkC15(c *Ctx) {
 			mk("nested-def/outer-twice/"+tag, imp("外"), zr.Show(zr.CallE("外")), zr.Show(zr.CallE("外")))
 		}
 		mk("nested-def/not-exported", zr.Import{Name: "模甲"}, zr.Show(zr.S("leak?"), zr.CallE("内")))
+		// a module's own methods and types stay read-only inside the module after it has been
+		// loaded: a method called later by the importer cannot reassign a sibling
+		{
+			modW := &zr.Program{Body: []zr.Stmt{helper, greet, cat,
+				&zr.FuncDef{Name: "改法", Body: []zr.Stmt{zr.Set(zr.N("助手"), intLit(5)), zr.Return{E: zr.S("changed")}}, Catches: []zr.Catch{{Class: "异常", Body: []zr.Stmt{zr.Return{E: zr.S("rejected")}}}}},
+				&zr.FuncDef{Name: "改型", Body: []zr.Stmt{zr.Set(zr.N("猫"), intLit(5)), zr.Return{E: zr.S("changed")}}, Catches: []zr.Catch{{Class: "异常", Body: []zr.Stmt{zr.Return{E: zr.S("rejected")}}}}},
+				&zr.FuncDef{Name: "硬改", Body: []zr.Stmt{zr.Set(zr.N("助手"), intLit(5)), zr.Return{E: zr.S("changed")}}},
+				zr.Show(zr.S("body:模乙"))}}
+			modsW := map[string]*zr.Program{"模乙": modW}
+			for _, body := range [][]zr.Stmt{
+				{zr.Show(zr.CallE("改法")), zr.Show(zr.CallE("问好", zr.S("a"))), zr.Show(zr.CallE("改型")), zr.Show(zr.MCall{Recv: zr.New{Class: "猫"}, Chain: []zr.CallPart{{Fn: "叫"}}})},
+				{zr.Show(zr.CallE("硬改")), zr.Show(zr.S("not-reached"))},
+			} {
+				mainP := &zr.Program{Imports: []zr.Import{{Name: "模乙"}}, Body: body}
+				special(fmt.Sprintf("sibling-readonly/%d", len(body)), map[string]string{"main.zn": zr.Render(mainP, zr.Layout{}), "模乙.zn": zr.Render(modW, zr.Layout{})}, nil, mainP, modsW)
+			}
+		}
 		// a module file that happens to be called like the main module
 		namedMain := &zr.Program{Body: []zr.Stmt{&zr.FuncDef{Name: "法", Body: []zr.Stmt{zr.Return{E: intLit(7)}}}, zr.Show(zr.S("body:主模块"))}}
 		mainM := &zr.Program{Imports: []zr.Import{{Name: "主模块"}}, Body: []zr.Stmt{zr.Show(zr.CallE("法"))}}
